@@ -70,6 +70,8 @@ CLAIMED["C04"]["engine"] = "channel+transport"
 CLAIMED["C04"]["tech"] += "; plus TLA+ model Transport.tla (contract of a transport pair: FIFO, no loss before the close is reported) enumerated by TLC, every operation sequence executed on real in-process / TCP / WebSocket pairs, TLC monitor TransObs (C04_TransportOrder, C04_TransportNoLoss)"
 CLAIMED["C13"]["engine"] = "channel+transport"
 CLAIMED["C13"]["tech"] += "; plus Transport.tla sequences on real pairs, TLC monitor TransObs (C13_TransportClosed: an end that closed refuses to send and receive and reports itself as not connected)"
+CLAIMED["C18"]["engine"] = "server-life+listener"
+CLAIMED["C18"]["tech"] += "; plus TLA+ model Listener.tla (listen / dial / accept / close on one listener of each kind, every sequence inside the bound) executed on real listeners, TLC monitor LisObs (C18_ListenerStops: a closed listener takes no dial and hands out no connection)"
 CLAIMED["C08"]["engine"] = "hs-client+client-life"
 CLAIMED["C08"]["tech"] += "; at the level of the Client facade: Client.Establish against a scripted server whose first connection is answered with another state, TLC monitor CliObs (C08_ClientTruthful)"
 CLAIMED["C09"]["tech"] += "; websocket dial attributes (ws / wss, with and without a TLS configuration): both ends must report the encryption of the URL scheme, TLC monitor TransObs (C09_TransportEncryption)"
@@ -110,6 +112,9 @@ m = {
            "baseline_off_cmd": "cd /repo && GOFLAGS=-mod=mod GOPROXY=off GOSUMDB=off GOTOOLCHAIN=local go test -json -vet=off -count=1 -timeout 25m ./...",
            "source_commits": hook_commits, "add_only": True},
  "engines": [
+   {"name": "listener", "path": "spec/Listener.tla spec/ListenerMC.tla spec/LisObs.tla harness/transd/lisd.go tools/engines/listener.py",
+    "serves_properties": ["C18"],
+    "kind_free_text": "TLA+ contract of a transport listener (in-process, TCP, WebSocket) with every bounded operation sequence enumerated by TLC, each executed on a real listener and compared step by step, TLC trace monitor"},
    {"name": "transport", "path": "spec/Transport.tla spec/TransportMC.tla spec/TransProps.tla spec/TransObs.tla harness/transd tools/engines/transport.py",
     "serves_properties": ["C04", "C09", "C13"],
     "kind_free_text": "TLA+ contract of a connected transport pair (in-process, TCP, WebSocket) with every bounded operation sequence enumerated by TLC, each executed on a real pair and compared step by step, TLC trace monitor"},
